@@ -279,4 +279,6 @@ def run(chk):
     rule_remove(chk)
     common.rule_instance_state(chk, "C12", [("_output", "Destinations"), ("_output", "BufferingDestination")])
     common.rule_defaults(chk, "C12", modules=("_output",))
+    from . import c13
+    c13.rule_copy(chk)  # the start-up buffer retains what Logger.write hands it: it must be a private copy, not the caller's (re-usable) dict
     rule_lock(chk)
